@@ -120,6 +120,27 @@ def generate(rng, tier):
         span = rng.choice([3, 12, 100])
         zs = [rng.randint(-span, span) for _ in range(N)]
         yield _mk('wide/negatives', zs, m, rng.choice(RS), rng.choice(['list', 'array:int64']))
+    # 7b. windows that collide when their values are concatenated as decimal strings ([1,11] vs [11,1] -> '111'):
+    #     an r == 0 shortcut that keys windows by such a string counts distinct windows as matches
+    yield dict(_mk('collide/example', [1, 11, 3, 11, 1, 5, 1, 11, 7], 1, 0, 'list'), defaults=True)
+    yield _mk('collide/example', [1, 11, 3, 11, 1, 5, 1, 11, 7], 1, 0, 'array:int64')
+    alphabets = [[1, 11, 111], [2, 12, 21, 1], [-1, 1, 11], [0, 10, 100, 1]]
+    for i in range(900 if thorough else 150):
+        alpha = alphabets[i % 4]
+        m = 1 + (i // 4) % 3
+        N = rng.randint(m + 1, 25)
+        zs = [rng.choice(alpha) for _ in range(N)]
+        r = 1 if i % 8 == 7 else 0
+        form = ['list', 'array:int64', 'list', 'array:int32', 'array:int8'][i % 5]
+        c = _mk('collide/' + '_'.join(str(a) for a in alpha), zs, m, r, form)
+        if m == 1 and r == 0 and i % 3 == 0:
+            c['defaults'] = True        # apen(seq): m = 1, r = 0 taken from the signature
+        yield c
+    # 7c. the default-argument path on ordinary digit sequences, every form
+    for i in range(120 if thorough else 30):
+        N = rng.randint(2, 30)
+        zs = [rng.randrange(rng.choice([2, 3, 10])) for _ in range(N)]
+        yield dict(_mk('defaults', zs, 1, 0, (forms3 + ['array:uint8', 'array:int8'])[i % 5]), defaults=True)
     # 8. unsupported types
     for i in range(60 if thorough else 24):
         m = rng.randint(1, max_m)
@@ -161,6 +182,14 @@ def _build(c, form=None):
     if form == 'bytes':
         return bytes(zs)
     raise AssertionError(form)
+
+
+def _call(cpl, c, seq):
+    """apen(seq) when the case exercises the defaults (the case then has m = 1, r = 0), else apen(seq, m, r)"""
+    if c.get('defaults'):
+        assert c['m'] == 1 and c['r'] == 0
+        return cpl.apen(seq)
+    return cpl.apen(seq, c['m'], c['r'])
 
 
 def _dbl(x):
@@ -214,7 +243,7 @@ def run_impl(c):
     np.log = spy_log
     try:
         with np.errstate(all='ignore'):
-            r = call_impl(lambda: _dbl(cpl.apen(seq, c['m'], c['r'])))
+            r = call_impl(lambda: _dbl(_call(cpl, c, seq)))
     finally:
         np.log = real_log
     obs = {'res': list(r), 'counts': None, 'ref': None}
@@ -223,7 +252,7 @@ def run_impl(c):
             obs['counts'] = _counts(logged, len(c['zs']), c['m'])
         if c['form'] != 'list' and 'bad' not in c:
             with np.errstate(all='ignore'):
-                ref = call_impl(lambda: _dbl(cpl.apen(_build(c, 'list'), c['m'], c['r'])))
+                ref = call_impl(lambda: _dbl(_call(cpl, c, _build(c, 'list'))))
             obs['ref'] = list(ref)
     return obs
 
